@@ -126,7 +126,7 @@ Section GhostB.
         fits_drawB (ms_align m) (ms_erase_n m extra) m extra = true
     | AClear => fits_clearB m = true
     | ASuspend ws =>
-        forallb (fun w => match w with [] => false | _ => true end) ws = true
+        closure_ok m ws = true      (* MultiScreen.closure_ok: no empty FIRST line on an empty region *)
         /\ fits_clearB m = true
         /\ (visual_line_count (bar_lines_of m) W <=? H) = true
     | AWrite ws => ws = []
